@@ -111,7 +111,36 @@ RDF_FORMATS = (None, "xml", "turtle", "nt", "json-ld", "n3", "pretty-xml", "ttl"
 RDF_FORMATS2 = ("nquads", "longturtle", "hext", "Turtle", "XML", " nt", "nt ", "application/rdf+xml", "json_ld")
 
 
-STEP_STREAMS = ("history", "locale", "reuse")
+# ---- ways of having warnings only (strengthening round 4) -------------------------------------------------
+# every branch of every rule of the default validation that the property does not name as a way of being
+# invalid (the property names: missing Section type, duplicate ids, duplicate sibling names), built inside a
+# Section of its own; NEAR_KINDS are the neighbours of those branches that raise no issue at all
+WARN_KINDS = (
+    "ns_type", "ns_type_explicit", "unnamed_sec", "unnamed_prop",
+    "dep_missing", "dep_value_mismatch", "dep_value_type", "dep_value_float", "dep_self", "dep_in_sub",
+    "dep_in_parent", "dep_number", "dep_true", "dep_ws", "dep_target_empty", "dep_list", "dep_wide",
+    "tuple_len", "dtype_mismatch", "dtype_date_int",
+    "str_int", "str_date", "str_datetime", "str_time", "str_float", "str_tuple", "str_ntuple", "str_bool",
+    "str_text",
+    "card_val_min", "card_val_max", "card_val_exact", "card_val_10", "card_val_max10", "card_prop_min",
+    "card_prop_max", "card_prop_exact", "card_sec_min", "card_sec_max", "card_sec_leaf",
+    "many", "hundred")
+NEAR_KINDS = ("dep_value_match", "dep_value_match_last", "dep_no_value", "dep_empty", "dep_value_only",
+              "dep_value_empty", "dtype_unknown", "str_mixed", "str_plain", "card_val_ok", "card_val_0",
+              "card_sec_max0", "card_int", "typed_like_ns")
+RAW_WARNS = ("tuple_len", "dtype_mismatch", "dtype_date_int", "dtype_unknown")
+# rules registered with the validation from outside (module-level registry; stream 'registry', child interpreter):
+# the two rules the library ships "on demand" and user rules that warn / refuse / raise / find nothing
+REGISTER_KINDS = ("repo_present", "terminology", "custom_warning", "custom_warning_doc", "custom_warning_prop",
+                  "custom_error", "custom_error_doc", "custom_error_prop", "custom_error_default_rank",
+                  "custom_raises", "custom_nothing", "custom_many", "custom_both")
+REGISTER_ERRORS = ("custom_error", "custom_error_doc", "custom_error_prop", "custom_error_default_rank",
+                   "custom_both")
+# validation_id of an issue -> name of the registered rule it comes from (where the two differ)
+ISSUE_RULE = {"section_unique_ids": "document_unique_ids", "property_unique_ids": "document_unique_ids",
+              "property_unique_name": "property_unique_names"}
+
+STEP_STREAMS = ("history", "locale", "reuse", "registry")
 
 
 class Obj(object):
@@ -180,7 +209,215 @@ def build_doc(spec):
         # (the linking Section is not a place for injections: its Properties are copies that every
         #  Document.finalize - RDFWriter calls it - replaces by new ones)
         secs += [tgt, unnamed, deep]
+    # (round 4) issues the document has before it is loaded / handed over, and the way it came into being:
+    # through the API or read from a text in one of the formats (the writer does not validate a text)
+    for i, wrn in enumerate(spec.get("pre_warns") or []):
+        try:
+            apply_warn(doc, secs, wrn, 100 + i, [])
+        except Exception:
+            pass
+    if spec.get("via"):
+        try:
+            from odml.tools.odmlparser import ODMLReader, ODMLWriter
+            text = ODMLWriter(spec["via"]).to_string(doc)
+            loaded = ODMLReader(spec["via"], show_warnings=False).from_string(text)
+            kept = [s for s in loaded.itersections(recursive=True)
+                    if not any(getattr(a, "link", None) for a in [s] + _ancestors(s))]
+            if kept:
+                doc, secs = loaded, kept
+        except Exception:                 # the text cannot be produced / read back: the API-built document
+            pass
     return doc, secs
+
+
+def apply_warn(doc, secs, wrn, num, undo):
+    """Adds a Section of its own that triggers one branch of one rule that is not a way of being invalid
+    (or a neighbour of the branch that triggers nothing)."""
+    import odml
+    kind = wrn["kind"]
+    parent = doc
+    if wrn.get("at") == "pick" and secs:
+        parent = secs[wrn.get("pick", 0) % len(secs)]
+    wsec = odml.Section(name="w%d_%s" % (num, kind), type="wt")
+    pa = odml.Property(name="a", values=[1, 2], parent=wsec)
+    pb = odml.Property(name="b", values=["x", "y"], parent=wsec)
+    sub = odml.Section(name="ws", type="wst", parent=wsec)
+    pc = odml.Property(name="c", values=["v"], parent=sub)
+
+    def dep(prop, name, value=None):
+        prop.dependency = name
+        if value is not None:
+            prop.dependency_value = value
+
+    def raw(prop, dtype, values):
+        prop._dtype = dtype
+        prop._values = values
+
+    def card(prop, count, bounds):
+        prop.values = list(range(count))
+        prop.val_cardinality = bounds
+
+    def many(count):
+        for _ in range(count):
+            odml.Property(values=["u"], parent=sub)
+
+    strings = {"str_int": ["1", "-22"], "str_date": ["2020-01-02"], "str_datetime": ["2020-01-02 03:04"],
+               "str_time": ["03:04:05"], "str_float": ["1.5"], "str_tuple": ["(a)"], "str_ntuple": ["(1;2)"],
+               "str_bool": ["True"], "str_text": ["a\nb"], "str_mixed": ["1", "x"], "str_plain": ["x"]}
+    if kind in strings:
+        pb.values = strings[kind]
+    else:
+        {
+            "ns_type": lambda: odml.Section(name="untyped_w", parent=wsec),
+            "ns_type_explicit": lambda: setattr(sub, "type", "n.s."),
+            "typed_like_ns": lambda: setattr(sub, "type", "n.s"),
+            "unnamed_sec": lambda: odml.Section(type="ut", parent=wsec),
+            "unnamed_prop": lambda: odml.Property(values=["u"], parent=wsec),
+            "dep_missing": lambda: dep(pb, "nope", "x"),
+            "dep_value_mismatch": lambda: dep(pb, "a", 7),
+            "dep_value_type": lambda: dep(pb, "a", "1"),
+            "dep_value_float": lambda: dep(pb, "a", 1.5),
+            "dep_self": lambda: dep(pb, "b", "zzz"),
+            "dep_in_sub": lambda: dep(pb, "c", "v"),
+            "dep_in_parent": lambda: dep(pc, "a", 1),
+            "dep_number": lambda: dep(pb, 0, 1),
+            "dep_true": lambda: dep(pb, True),
+            "dep_ws": lambda: dep(pb, " a ", 1),
+            "dep_target_empty": lambda: (setattr(pa, "values", []), dep(pb, "a", 1)),
+            "dep_list": lambda: dep(pb, ["a"], [1]),
+            "dep_wide": lambda: (setattr(pa, "name", u"\u00e4\u4e2d"), dep(pb, u"\u00e4\u4e2d", u"\u00fc")),
+            "dep_value_match": lambda: dep(pb, "a", 1),
+            "dep_value_match_last": lambda: dep(pb, "a", 2),
+            "dep_no_value": lambda: dep(pb, "a"),
+            "dep_empty": lambda: dep(pb, "", "x"),
+            "dep_value_only": lambda: setattr(pb, "dependency_value", "x"),
+            "dep_value_empty": lambda: dep(pb, "a", ""),
+            "tuple_len": lambda: raw(pa, "2-tuple", ["(1;2;3)"]),
+            "dtype_mismatch": lambda: raw(pa, "int", ["abc", 1]),
+            "dtype_date_int": lambda: raw(pa, "date", [1]),
+            "dtype_unknown": lambda: setattr(pa, "_dtype", "weird"),
+            "card_val_min": lambda: card(pa, 2, (3, None)),
+            "card_val_max": lambda: card(pa, 2, (None, 1)),
+            "card_val_exact": lambda: card(pa, 2, (3, 3)),
+            "card_val_10": lambda: card(pa, 9, (10, None)),
+            "card_val_max10": lambda: card(pa, 11, (None, 10)),
+            "card_val_ok": lambda: card(pa, 2, (2, 2)),
+            "card_val_0": lambda: card(pa, 2, (0, 0)),
+            "card_prop_min": lambda: setattr(wsec, "prop_cardinality", (3, None)),
+            "card_prop_max": lambda: setattr(wsec, "prop_cardinality", (None, 1)),
+            "card_prop_exact": lambda: setattr(wsec, "prop_cardinality", (1, 1)),
+            "card_sec_min": lambda: setattr(wsec, "sec_cardinality", (2, None)),
+            "card_sec_max": lambda: (odml.Section(name="ws2", type="wst", parent=wsec),
+                                     setattr(wsec, "sec_cardinality", (None, 1))),
+            "card_sec_max0": lambda: setattr(wsec, "sec_cardinality", (None, 0)),
+            "card_sec_leaf": lambda: setattr(sub, "sec_cardinality", (1, 1)),
+            "card_int": lambda: setattr(wsec, "sec_cardinality", 5),
+            "many": lambda: many(12),
+            "hundred": lambda: many(100),
+        }[kind]()
+    parent.append(wsec)
+    undo.append(lambda: parent.remove(wsec))
+
+
+def independently_invalid(doc):
+    """The ways of being invalid the property names, looked for with nothing but attribute reads (no use of
+    odml.validation): a Section without type / name or a Property without name (the attributes the format
+    requires), two objects of one id, two sibling Sections of one name and type, two Properties of one name in
+    a Section. -> list of what was found; None when the attributes cannot be read like this."""
+    try:
+        found = []
+        ids = [doc.id]
+
+        def missing(val):
+            return not val and not isinstance(val, bool)
+
+        def twice(items):
+            seen = []
+            for item in items:
+                if any(item is old or item == old for old in seen):
+                    return True
+                seen.append(item)
+            return False
+
+        def walk(holder, depth):
+            if depth > 60:
+                raise RuntimeError("too deep")
+            if twice([(sec.name, sec.type) for sec in holder.sections]):
+                found.append("sibling Sections of one name and type")
+            for sec in holder.sections:
+                ids.append(sec.id)
+                if missing(sec.type) or missing(sec.name):
+                    found.append("Section without type or name")
+                if twice([prop.name for prop in sec.properties]):
+                    found.append("sibling Properties of one name")
+                for prop in sec.properties:
+                    ids.append(prop.id)
+                    if missing(prop.name):
+                        found.append("Property without name")
+                walk(sec, depth + 1)
+        walk(doc, 0)
+        if twice(ids):
+            found.append("two objects of one id")
+        return found
+    except Exception:
+        return None
+
+
+def register_rules(kinds, made):
+    """Registers validation rules through the public Validation.register_handler; `made` receives the
+    (class, rule) pairs so that they can be taken back below the API (there is no public way; the stream runs
+    in a child interpreter of its own)."""
+    from odml import validation as val
+
+    def add(klass, rule):
+        val.Validation.register_handler(klass, rule)
+        made.append((klass, rule))
+
+    def yielding(rank, count=1):
+        def rule(obj):
+            for i in range(count):
+                if rank == "default":
+                    yield val.ValidationError(obj, "custom issue %d" % i)
+                else:
+                    yield val.ValidationError(obj, "custom issue %d" % i, rank)
+        return rule
+
+    def raising(obj):
+        raise RuntimeError("custom rule raises")
+        yield None                        # noqa (a generator function, like every rule)
+
+    def both(obj):
+        yield val.ValidationError(obj, "custom warning first", val.LABEL_WARNING)
+        yield val.ValidationError(obj, "custom error second", val.LABEL_ERROR)
+
+    for kind in kinds or []:
+        if kind == "repo_present":
+            add("section", val.section_repository_present)
+        elif kind == "terminology":
+            add("property", val.property_terminology_check)
+        elif kind.startswith("custom_warning"):
+            add({"custom_warning_doc": "odML", "custom_warning_prop": "property"}.get(kind, "section"),
+                yielding(val.LABEL_WARNING))
+        elif kind == "custom_error_default_rank":
+            add("section", yielding("default"))
+        elif kind.startswith("custom_error"):
+            add({"custom_error_doc": "odML", "custom_error_prop": "property"}.get(kind, "section"),
+                yielding(val.LABEL_ERROR))
+        elif kind == "custom_raises":
+            add("section", raising)
+        elif kind == "custom_nothing":
+            add("property", yielding(val.LABEL_WARNING, 0))
+        elif kind == "custom_many":
+            add("property", yielding(val.LABEL_WARNING, 15))
+        elif kind == "custom_both":
+            add("section", both)
+    return made
+
+
+def unregister_rules(made):
+    from odml.validation import Validation
+    for klass, rule in made:
+        Validation._handlers[klass].discard(rule)
 
 
 def _ancestors(sec):
@@ -295,6 +532,11 @@ def inject(doc, secs, case, undo=None):
     if case.get("warn"):
         untyped = odml.Section(name="untyped", parent=doc)          # default type "n.s." -> warning
         undo.append(lambda: doc.remove(untyped))
+    for i, wrn in enumerate(case.get("warns") or []):
+        try:
+            apply_warn(doc, secs, wrn, i, undo)
+        except Exception:                 # the library refuses the edit: the case goes on without it
+            skipped.append("warn:" + wrn["kind"])
     fault = case.get("fault")
     try:
         if fault in ("obj_author", "gen_author", "nul_author"):
@@ -383,10 +625,20 @@ def result_of(fn):
 
 
 def locale_child(case):
-    """Runs in a child interpreter started with an ASCII locale (see C07.impl_locale)."""
+    """Runs in a child interpreter: started with an ASCII locale (stream 'locale', see C07.impl_locale) or with
+    the process environment of the case (stream 'registry': rules are registered with the validation)."""
     import locale
     chk = C07()
     steps = []
+    registry = case["stream"] == "registry"
+    if registry:
+        try:
+            from odml.validation import Validation
+            usable = all(isinstance(v, set) for v in Validation._handlers.values())
+        except Exception:
+            usable = False
+        if not usable:                    # rules could not be taken back again: the stream is left out
+            return {"encoding": locale.getpreferredencoding(False), "steps": []}
     for st in case["steps"]:
         base = tempfile.mkdtemp(prefix="c07l_")
         try:
@@ -394,11 +646,14 @@ def locale_child(case):
                 steps.append(chk.run_step(base, st, fresh=True))
         finally:
             shutil.rmtree(base, ignore_errors=True)
+        if chk.registry_stuck:            # a rule could not be taken back: what follows would not be the case
+            break
     return {"encoding": locale.getpreferredencoding(False), "steps": steps}
 
 
 class C07(fw.Check):
     prop = "C07"
+    registry_stuck = False
     lean_targets = ["OdmlModel.Props.C07"]
     obligations = ["C07." + t for t in [
         "invalid_never_written", "invalid_never_written_save", "blocking_rules_rank_error",
@@ -408,7 +663,8 @@ class C07(fw.Check):
         "save_ok_iff", "history_last_success", "history_all_failed_keeps",
         "legacy_open_first_truncates", "legacy_frame_false", "witness_now_harmless",
         "legacy_harm_exact", "save_path_spec", "save_path_examples", "saveW_refines",
-        "saveW_invalid_never_written", "saveW_harm_exact", "saveW_frame", "write_failure_truncates"]]
+        "saveW_invalid_never_written", "saveW_harm_exact", "saveW_frame", "write_failure_truncates",
+        "nonblocking_rules_rank_warning", "warning_rule_issues_written", "blocking_rule_issue_refused"]]
     trusted_base = [
         "Lean 4.33.0 kernel; axioms propext, Classical.choice, Quot.sound only (audited per theorem)",
         "hand-written model lean/OdmlModel/Model/FS.lean, tied to the repository by this correspondence run",
@@ -576,7 +832,7 @@ class C07(fw.Check):
             for st in steps:
                 st["backend"] = st["backend"].upper()
             cases.append({"stream": "locale", "steps": steps})
-        return cases + self.generate_round2(tier, rng, lmodes)
+        return cases + self.generate_round2(tier, rng, lmodes) + self.generate_round4(tier, rng, lmodes)
 
     def generate_round2(self, tier, rng, lmodes):
         """Streams added after seeded round 2 (see design.d/C07.md)."""
@@ -705,22 +961,181 @@ class C07(fw.Check):
             cases.append({"stream": "reuse", "steps": steps})
         return cases
 
+    def warn(self, rng, kind=None, n=0):
+        kinds = list(WARN_KINDS) + list(NEAR_KINDS)
+        return {"kind": kind or rng.choice(kinds), "at": ("doc", "pick")[n % 2] if kind else rng.choice(["doc", "pick"]),
+                "pick": rng.randrange(4)}
+
+    def generate_round4(self, tier, rng, lmodes):
+        """Streams added after seeded round 4 (see design.d/C07.md): every way of having warnings only."""
+        cases = []
+        quick = tier == "quick"
+        base = {"doc": {"secs": 1, "props": 2, "nested": False}, "pick": 0, "warn": False, "filter": "default",
+                "name": "f.out", "invalid": None, "fault": None, "custom_template": None}
+        all_modes = modes()
+        validating = [m for m in all_modes if m[0] in ("fileio", "odmlwriter")]
+        core = [m for m in validating if m[2] in (None, "turtle")]                # 2 entries x 5 serialisers
+        kinds = list(WARN_KINDS) + list(NEAR_KINDS)
+        n = 0
+        # (a) every branch of every rule that is not a way of being invalid (and its neighbours) x every
+        #     serialiser through both validating entry points; position in the tree and target state rotate
+        for kind in kinds:
+            for k, mode in enumerate(core if quick else validating):
+                if quick and kind == "hundred" and k % 5:
+                    continue
+                n += 1
+                doc = {"secs": 1 + n % 2, "props": 1 + (n // 2) % 2, "nested": n % 3 == 0}
+                cases.append(self.one(rng, mode, **dict(base, doc=doc, target=("old", "absent")[n % 2],
+                                                        warns=[self.warn(rng, kind, n)])))
+        # (b) the same issues next to each way of being invalid (refused), under each warnings filter, together
+        #     with the plain untyped Section, through the entry points that do not validate
+        for i, kind in enumerate(WARN_KINDS):
+            mode = validating[(i * 7) % len(validating)]
+            inv = INVALID_KINDS[i % len(INVALID_KINDS)]
+            cases.append(self.one(rng, mode, **dict(base, target="old", invalid=inv, pick=i,
+                                                    warns=[self.warn(rng, kind, i)])))
+            for j, flt in enumerate(("error", "ignore", "error_all")):
+                mode = core[(i + 3 * j) % len(core)]
+                cases.append(self.one(rng, mode, **dict(base, target=("old", "absent")[(i + j) % 2], filter=flt,
+                                                        warns=[self.warn(rng, kind, i + j)])))
+            cases.append(self.one(rng, core[i % len(core)], **dict(base, target="absent", warn=True,
+                                                                   warns=[self.warn(rng, kind, i)])))
+            other = [("xmlwriter", "XML", None), ("rdfwriter", "RDF", "turtle"), ("rdfwriter", "RDF", "xml")][i % 3]
+            cases.append(self.one(rng, other, **dict(base, target="old", warns=[self.warn(rng, kind, i)])))
+        # (c) several issues at once, in rich documents, with payloads and odd targets
+        for i in range(80 if quick else 3000):
+            case = self.wide_one(rng, rng.choice(validating) if i % 4 else None)
+            case["warns"] = [self.warn(rng) for _ in range(rng.randrange(1, 5))]
+            if i % 3 == 0:
+                case["invalid"], case["fault"] = None, None
+            cases.append(self.settle(case))
+        # (d) the document is read from a text in one of the formats (as a file written elsewhere is) and saved
+        #     again: it brings its issues along; further edits after loading
+        vias = ("XML", "JSON", "YAML")
+        for i, kind in enumerate(kinds):
+            for j, via in enumerate(vias if not quick else (vias[i % 3],)):
+                mode = core[(i + j) % len(core)]
+                doc = {"secs": 1, "props": 2, "nested": i % 2 == 0, "via": via, "pre_warns": [self.warn(rng, kind, i)]}
+                cases.append(self.one(rng, mode, **dict(base, doc=doc, target=("old", "absent")[i % 2])))
+        for i, mode in enumerate(validating):
+            for via in vias:
+                if quick and (i + len(via)) % 3:
+                    continue
+                doc = {"secs": 2, "props": 2, "nested": True, "via": via}
+                if i % 2:
+                    doc["rich"] = ("plain", "card")[i % 4 // 2]
+                variant = [{}, {"invalid": INVALID_KINDS[i % len(INVALID_KINDS)], "pick": i},
+                           {"warns": [self.warn(rng)]}, {"payload": self.payload(rng)}][i % 4]
+                cases.append(self.settle(self.one(rng, mode, **dict(base, doc=doc, target="old", **variant))))
+        # (e) Document.validate() has been called before the save
+        for i in range(40 if quick else 600):
+            case = self.one(rng, rng.choice(validating), **dict(base, target=rng.choice(["old", "absent"]),
+                                                                pre="validate"))
+            case["invalid"] = rng.choice([None, None] + list(INVALID_KINDS))
+            case["warns"] = [self.warn(rng) for _ in range(rng.randrange(0, 3))]
+            cases.append(case)
+        # (f) one document and one writer for several saves; issues come and go between the saves
+        reusable = [m for m in all_modes if m[2] in (None, "turtle", "nt", "xml")]
+        for i in range(40 if quick else 1000):
+            mode = reusable[(i * 5) % len(reusable)]
+            doc = {"secs": rng.choice([1, 2]), "props": 2, "nested": rng.random() < 0.4}
+            if i % 5 == 0:
+                doc["via"] = vias[i % 3]
+            steps = []
+            for k in range(rng.randrange(2, 5)):
+                st = self.one(rng, mode, doc=doc, name=rng.choice(["f.out", "g.out"]), custom_template=None,
+                              target=rng.choice(["keep", "keep", "keep", "missing_dir"]), fault=None)
+                st["backend"] = mode[1]
+                style = (i + k) % 3
+                if style == 0:
+                    st["invalid"] = None
+                    st["warns"] = [self.warn(rng, rng.choice(WARN_KINDS), k)]
+                elif style == 1:
+                    st["invalid"], st["warn"] = None, False
+                    if rng.random() < 0.5:
+                        st["pre"] = "validate"
+                else:
+                    st["warns"] = [self.warn(rng) for _ in range(rng.randrange(0, 3))]
+                steps.append(self.settle(st))
+            cases.append({"stream": "reuse", "steps": steps})
+        # (g) histories of saves of fresh documents with issues
+        for _ in range(20 if quick else 600):
+            steps = []
+            for _k in range(rng.randrange(2, 5)):
+                st = self.one(rng, rng.choice(validating), name=rng.choice(["f.out", "g.out"]),
+                              target=rng.choice(["keep", "keep", "missing_dir"]))
+                st["warns"] = [self.warn(rng) for _ in range(rng.randrange(0, 3))]
+                steps.append(st)
+            cases.append({"stream": "history", "steps": steps})
+        # (h) the ASCII locale: issues whose report carries names that ASCII cannot hold
+        for target in ("old", "absent"):
+            steps = []
+            for i, mode in enumerate(lmodes):
+                kind = ("dep_wide", "unnamed_prop", "dep_value_mismatch", "str_int", "card_val_min")[i % 5]
+                st = self.one(rng, mode, doc={"secs": 1, "props": 2, "nested": False, "wide": True}, pick=0,
+                              invalid=None, warn=False, fault=None, target=target, name="f.out",
+                              filter="default", custom_template=None, warns=[self.warn(rng, kind, i)])
+                st["backend"] = st["backend"].upper()
+                steps.append(st)
+            cases.append({"stream": "locale", "steps": steps})
+        # (i) the registry of rules (module-level state; a child interpreter per case, changing hash seeds): the
+        #     rules the library ships "on demand" with a terminology that is missing / lacks the Property / has
+        #     it, user rules that warn / refuse / raise / find nothing, alone and in pairs
+        reg_modes = [m for m in core if not (m[0] == "fileio" and m[2] == "turtle")]
+        repos = (None, "missing", "term_other", "term_has")
+        for c in range(3 if quick else 24):
+            steps = []
+            for i, kind in enumerate(REGISTER_KINDS):
+                for j in range(2 if quick else 4):
+                    mode = reg_modes[(i + 2 * j + c) % len(reg_modes)]
+                    reg = [kind]
+                    if (i + j + c) % 4 == 3:
+                        reg.append(rng.choice(REGISTER_KINDS))
+                    st = self.one(rng, mode, **dict(base, target=("old", "absent")[(i + j + c) % 2],
+                                                    register=sorted(set(reg)),
+                                                    repository=repos[(i + j + c) % 4] if kind in (
+                                                        "repo_present", "terminology") else rng.choice(repos)))
+                    st["backend"] = st["backend"].upper()
+                    if (i + j) % 5 == 4:
+                        st["warns"] = [self.warn(rng)]
+                    if (i + c) % 6 == 5:
+                        st["invalid"] = rng.choice(INVALID_KINDS)
+                    if (i + j + c) % 7 == 6:
+                        st["filter"] = rng.choice(["error", "ignore"])
+                    steps.append(st)
+            # a save with no rule registered after all of them: nothing is left behind
+            steps.append(self.one(rng, reg_modes[c % len(reg_modes)], **dict(base, target="old", register=[])))
+            steps[-1]["backend"] = steps[-1]["backend"].upper()
+            cases.append({"stream": "registry", "hashseed": (0, 1, 4242, "random")[c % 4], "steps": steps})
+        return cases
+
     # -- implementation ------------------------------------------------------
     def impl_locale(self, case):
         code = ("import sys, json; sys.path.insert(0, %r); import c07; "
                 "print('RESULT' + json.dumps(c07.locale_child(json.loads(sys.stdin.read()))))"
                 % os.path.dirname(os.path.abspath(__file__)))
-        env = dict(os.environ, PYTHONUTF8="0", PYTHONCOERCECLOCALE="0", LC_ALL="C", LANG="C",
-                   ODML_REPO=fw.REPO, PYTHONDONTWRITEBYTECODE="1")
-        proc = subprocess.run([sys.executable, "-c", code], input=json.dumps(case).encode("ascii"),
-                              env=env, stdout=subprocess.PIPE, stderr=subprocess.PIPE, timeout=600)
+        env = dict(os.environ, ODML_REPO=fw.REPO, PYTHONDONTWRITEBYTECODE="1")
+        private = None
+        if case["stream"] == "locale":
+            env.update(PYTHONUTF8="0", PYTHONCOERCECLOCALE="0", LC_ALL="C", LANG="C")
+        else:
+            # stream 'registry': a temporary directory of its own (the terminology loader keeps a cache of what
+            # it fetched below the temporary directory) and the hash seed of the case
+            private = tempfile.mkdtemp(prefix="c07r_")
+            env.update(TMPDIR=private, PYTHONHASHSEED=str(case.get("hashseed", 0)))
+        try:
+            proc = subprocess.run([sys.executable, "-c", code], input=json.dumps(case).encode("ascii"),
+                                  env=env, stdout=subprocess.PIPE, stderr=subprocess.PIPE, timeout=600)
+        finally:
+            if private:
+                shutil.rmtree(private, ignore_errors=True)
         for line in proc.stdout.decode("ascii", "replace").splitlines():
             if line.startswith("RESULT"):
                 return json.loads(line[len("RESULT"):])
         raise RuntimeError("child interpreter gave no result: %s" % proc.stderr.decode("ascii", "replace")[-600:])
 
     def impl(self, case):
-        if case["stream"] == "locale":
+        if case["stream"] in ("locale", "registry"):
             return self.impl_locale(case)
         base = tempfile.mkdtemp(prefix="c07_")
         try:
@@ -807,15 +1222,54 @@ class C07(fw.Check):
                 ctx["doc"], ctx["secs"] = doc, secs
         undo = []
         skipped = inject(doc, secs, case, undo)
+        if case.get("repository") and secs:
+            # (round 4) the first Section names a terminology: a file that is not there / one whose Section of
+            # this type lacks the Property / one that has it (looked at by the rules shipped "on demand" only)
+            try:
+                self.set_repository(root, secs[0], case["repository"], undo)
+            except Exception:
+                skipped.append("repository")
+        if case.get("pre") == "validate":
+            # the public Document.validate() has been called (and has left whatever state it leaves)
+            try:
+                doc.validate()
+            except Exception:
+                pass
+        # (round 4) rules registered with the validation - once the document stands: the constructors validate
+        made = []
         try:
+            try:
+                register_rules(case.get("register"), made)
+            except Exception:             # a rule the library does not have (any more): step left out
+                return None
             return self.save_and_observe(case, root, path, doc, skipped, links, fresh, ctx)
         finally:
+            try:
+                unregister_rules(made)
+            except Exception:
+                self.registry_stuck = True
             if ctx is not None:
                 for fn in reversed(undo):
                     try:
                         fn()
                     except Exception:
                         pass
+
+    @staticmethod
+    def set_repository(root, sec, kind, undo):
+        import odml
+        from odml.tools.xmlparser import XMLWriter
+        target = os.path.join(root, "term_%s.xml" % kind)
+        if kind != "missing":
+            term = odml.Document()
+            tsec = odml.Section(name="term", type=sec.type, parent=term)
+            names = [prop.name for prop in sec.properties] if kind == "term_has" else ["something_else"]
+            for name in names:
+                odml.Property(name=name, values=[1], parent=tsec)
+            XMLWriter(term).write_file(target)
+        old = sec.repository
+        undo.append(lambda: setattr(sec, "_repository", old))
+        sec.repository = "file://" + target
 
     def save_and_observe(self, case, root, path, doc, skipped, links, fresh, ctx):
         import odml
@@ -869,9 +1323,14 @@ class C07(fw.Check):
             # what the validation says (asked after the rendering: RDFWriter runs Document.finalize, which
             # re-resolves links - write_file validates the document in the state this leaves)
             try:
-                obs["validate"] = {"ok": [e.rank for e in Validation(doc).errors]}
+                issues = Validation(doc).errors
+                obs["validate"] = {"ok": [e.rank for e in issues]}
+                # the registered rule each issue comes from (for the model's table of rule ranks)
+                obs["issue_rules"] = [self.rule_of(e) for e in issues]
             except Exception as exc:
                 obs["validate"] = {"raise": fw.exc_name(exc)}
+            # (round 4) the ways of being invalid the property names, looked for without odml.validation
+            obs["indep_invalid"] = independently_invalid(doc)
             # RDFWriter gets the format as it is; ODMLWriter takes one that is not a text as "not given" (-> "xml")
             eff = fmt if (entry == "rdfwriter" or isinstance(fmt, str)) else "xml"
             try:
@@ -905,10 +1364,12 @@ class C07(fw.Check):
         payload = case.get("payload")
         plain_payload = payload is None or "payload" in skipped or (
             payload["kind"] in SAFE_TEXTS and payload["pos"] not in NO_LOADBACK_POS)
-        if obs["outcome"] == "ok" and len(changed) == 1 and case.get("fault") is None \
+        # (values put below the API are not what a reader hands back: no statement about loading them)
+        raw_values = any(w["kind"] in RAW_WARNS for w in (case.get("warns") or []) + (case["doc"].get("pre_warns") or []))
+        if obs["outcome"] == "ok" and len(changed) == 1 and case.get("fault") is None and not raw_values \
                 and case.get("invalid") is None and case.get("custom_template") is None and plain_payload \
                 and not (case.get("opts") or {}).get("custom_template") and isinstance(backend, str) \
-                and (isinstance(fmt, str) or fmt is None) and ctx is None:
+                and (isinstance(fmt, str) or fmt is None) and ctx is None and not case.get("register"):
             obs["loads"] = self.loads_back(os.path.join(root, changed[0]), entry, backend, fmt, doc,
                                            shape_only=bool(case["doc"].get("rich")))
         obs["root"] = root
@@ -919,6 +1380,14 @@ class C07(fw.Check):
                     with io.open(os.path.join(root, rel), "w") as fh:
                         fh.write(u"OLD")
         return obs
+
+    @staticmethod
+    def rule_of(issue):
+        vid = getattr(issue, "validation_id", None)
+        name = getattr(vid, "name", None)
+        if not isinstance(name, str):
+            return "?"
+        return ISSUE_RULE.get(name, name)
 
     @staticmethod
     def candidates(path, case):
@@ -967,7 +1436,9 @@ class C07(fw.Check):
     # -- model ---------------------------------------------------------------
     def step_request(self, case, obs):
         root = obs["root"]
-        files = [[os.path.join(root, rel), text] for rel, text in sorted(obs["before"].items())
+        # (a file of the harness that is neither target nor sentinel - the terminology of the 'registry'
+        #  stream - is handed over by its content class, which is what the comparison looks at)
+        files = [[os.path.join(root, rel), content_class(text)] for rel, text in sorted(obs["before"].items())
                  if text is not None]
         blocked = []
         dirs = [os.path.join(root, rel[:-1]) for rel in obs["before"] if rel.endswith("/")]
@@ -989,12 +1460,17 @@ class C07(fw.Check):
         return {"p": "C07", "op": "save", "entry": case["entry"], "backend": case["backend"],
                 "rdf_format": fmt, "path": obs["path"], "fs": files, "validate": obs["validate"],
                 "render": render, "serialize": serialize, "decorate": decorate, "blocked": blocked,
-                "warn_raises": case["filter"] == "error", "query": query}
+                "warn_raises": case["filter"] == "error", "query": query,
+                "issue_rules": obs.get("issue_rules") or []}
+
+    @staticmethod
+    def step_pairs(case, obs):
+        """(step, observation) of a stream of steps; a step the child interpreter left out has none."""
+        return [(st, o) for st, o in zip(case["steps"], obs.get("steps") or []) if o is not None]
 
     def model_requests(self, case, obs):
         if case["stream"] in STEP_STREAMS:
-            return [self.step_request(st, o) for st, o in zip(case["steps"], obs["steps"])
-                    if self.modelled(st, o)]
+            return [self.step_request(st, o) for st, o in self.step_pairs(case, obs) if self.modelled(st, o)]
         return [self.step_request(case, obs)] if self.modelled(case, obs) else []
 
     @staticmethod
@@ -1032,12 +1508,19 @@ class C07(fw.Check):
         if ans["outcome"] == "ok" and impl_ok and ans["warned"] and not obs["warned"] \
                 and case["filter"] != "ignore":
             out.append("model says a warning is issued, implementation issued none")
+        # (round 4) the rank of each issue is the rank the model's table (regenerated from the source of the
+        # rules) gives the rule it comes from; rules the table does not decide are left alone
+        ranks = obs["validate"].get("ok")
+        if ranks is not None and ans.get("rule_ranks") is not None and len(ans["rule_ranks"]) == len(ranks):
+            for rule, want, got in zip(obs.get("issue_rules") or [], ans["rule_ranks"], ranks):
+                if want in ("error", "warning") and want != got:
+                    out.append("issue of rule %s: model rank %s, implementation %s" % (rule, want, got))
         return out
 
     def compare(self, case, obs, answers):
         if case["stream"] in STEP_STREAMS:
             out = []
-            pairs = [(st, o) for st, o in zip(case["steps"], obs["steps"]) if self.modelled(st, o)]
+            pairs = [(st, o) for st, o in self.step_pairs(case, obs) if self.modelled(st, o)]
             for i, ((st, o), ans) in enumerate(zip(pairs, answers)):
                 out += ["step %d: %s" % (i, d) for d in self.compare_step(st, o, ans)]
             return out
@@ -1056,8 +1539,11 @@ class C07(fw.Check):
             except ImportError:
                 pass
         ranks = obs["validate"].get("ok")
-        invalid = (case.get("invalid") in INVALID_KINDS and case["invalid"] not in obs["skipped"]
-                   and "raise" not in obs["validate"]) or (ranks is not None and "error" in ranks)
+        # (round 4) a rule of rank error registered by the user makes every document invalid
+        custom_error = any(k in REGISTER_ERRORS for k in case.get("register") or [])
+        invalid = ((case.get("invalid") in INVALID_KINDS and case["invalid"] not in obs["skipped"]
+                    or custom_error) and "raise" not in obs["validate"]) \
+            or (ranks is not None and "error" in ranks)
         failed = obs["outcome"] != "ok"
         # 1. an invalid document is never written: ParserException for every format
         if validates and supported and invalid:
@@ -1107,6 +1593,22 @@ class C07(fw.Check):
                 out.append("document without validation errors was not saved: %s" % obs["outcome"])
             elif ranks and not obs["warned"] and case["filter"] == "default":
                 out.append("document saved with %d validation warnings but no warning was reported" % len(ranks))
+        # 5. (round 4) which issues are errors is not left to the library alone: the property names the ways of
+        #    being invalid (missing Section type - with the other attributes the format requires: Section name,
+        #    Property name -, duplicate ids, duplicate sibling names). A document that shows none of them to a
+        #    reader of its attributes, validated with the rules the library registers itself (and user rules
+        #    that only warn), has "warnings only" and is written. Weaker reading where there is a choice: nothing
+        #    is demanded when the independent look finds anything, could not be taken, the validation raised, the
+        #    text cannot be rendered or the target cannot be opened.
+        if validates and supported and obs.get("indep_invalid") == [] and not custom_error \
+                and (not case.get("invalid") or case["invalid"] in obs["skipped"]) \
+                and ranks is not None and "error" in ranks \
+                and "ok" in obs["render"] and case["target"] in ("absent", "old", "old_long", "keep") + LINK_TARGETS \
+                and case["filter"] in ("default", "ignore") and case.get("path_kind", "str") == "str" and failed:
+            rules = sorted(set(r for r, k in zip(obs.get("issue_rules") or [], ranks) if k == "error"))
+            out.append("document with none of the ways of being invalid the property names (no missing Section "
+                       "type / required name, no duplicate id, no duplicate sibling name) was refused: %s; the "
+                       "validation gives rank error to issues of %s" % (obs["outcome"], rules or "?"))
         return out
 
     def oracle(self, case, obs):
@@ -1114,7 +1616,7 @@ class C07(fw.Check):
             return []
         if case["stream"] in STEP_STREAMS:
             out = []
-            for i, (st, o) in enumerate(zip(case["steps"], obs["steps"])):
+            for i, (st, o) in enumerate(self.step_pairs(case, obs)):
                 out += ["step %d (%s %s %s): %s" % (i, st["entry"], st["backend"], st["rdf_format"], f)
                         for f in self.oracle_step(st, o)]
             return out
@@ -1123,8 +1625,8 @@ class C07(fw.Check):
     def tag(self, case, obs):
         if case["stream"] == "locale":
             return ("locale:%s" % obs.get("encoding"), True)
-        if case["stream"] in ("history", "reuse"):
-            steps = obs.get("steps", [])
+        if case["stream"] in ("history", "reuse", "registry"):
+            steps = [o for o in obs.get("steps", []) if o is not None]
             return ("%s:%d" % (case["stream"], len(steps)), any(o.get("outcome") != "ok" for o in steps))
         oc = obs.get("outcome")
         if oc == "ok":
@@ -1139,7 +1641,10 @@ class C07(fw.Check):
             cls = "raised-other"
         nt = oc != "ok" or case["target"] in ("old", "old_long", "link_old") or bool(obs.get("warned"))
         extra = ""
-        if case.get("payload"):
+        if case.get("warns") or case["doc"].get("pre_warns") or case["doc"].get("via") or case.get("pre"):
+            kinds = [w["kind"] for w in (case.get("warns") or []) + (case["doc"].get("pre_warns") or [])]
+            extra = ":warn-rules" if any(k in WARN_KINDS for k in kinds) else ":round4"
+        elif case.get("payload"):
             extra = ":payload-text" if case["payload"]["kind"] in TEXTS else ":payload-object"
         elif case["target"] in LINK_TARGETS or case.get("path_kind") or case.get("opts") \
                 or case.get("rdf_format_obj") or case["doc"].get("rich"):
